@@ -100,6 +100,13 @@ def gen_to_num_texts(rng, n):
            "inf", "-inf", "+inf", "infinity", "-infinity", "Infinity", "INF", "nan", "NaN", "-nan", "+nan", ".5", "-.5", "5.", "-5.", ".", "-", "+", "", "e5", "1e", "1e+",
            " 1", "1 ", "1_0", "0x10", "1.2.3", "--1", "+-1", "1e5.5", "12a", "4.9e-324", "2.4e-324", "2.5e-324", "1.7976931348623157e308", "1.7976931348623159e308",
            "9007199254740993", "-9007199254740993", "0.1e1", "00012", "-00012.5000"]
+    # integers (and their neighbours) at the widths where an integer accumulator of 8 / 16 / 32 / 53 / 63 / 64 / 128 bits overflows, long runs of digits
+    for p in (8, 16, 31, 32, 53, 63, 64, 65, 127, 128):
+        for d in (-2049, -1, 0, 1, 2048, 4096):
+            v = 2 ** p + d
+            out += [str(v), "-" + str(v), str(v) + ".0", "0" + str(v)]
+    for n in (15, 16, 17, 18, 19, 20, 21, 22, 39, 40, 309, 310):
+        out += ["9" * n, "1" + "0" * (n - 1), "-" + "9" * n, "9" * n + ".5", "0." + "0" * n + "1", "0." + "9" * n]
     while len(out) < n:
         k = rng.below(6)
         sign = rng.choice(["", "-", "+", ""])
@@ -220,10 +227,24 @@ def correspondence(ctx, model_ok=True):
                       (d + ".", [("Number", d), ("Dot", ".")]),
                       (d + "." + d2 + "." + ident, [("Number", d + "." + d2), ("Dot", "."), ("Identifier", ident)]),
                       (d + "." + d2 + ".." + d, [("Number", d + "." + d2), ("DotDot", ".."), ("Number", d)])]
+    # the same cases after text of every UTF-8 length class (a comment line, a string literal with 2-, 3-, 4-byte characters): where the
+    # number starts in BYTES and in CHARACTERS differs, and the look-ahead must not mix the two up
+    prefixes = [("// caf\u00e9 \u20ac \U0001f600\n", []), ("\"\u00e9\u20ac\" ; ", None), ("\"\U0001f600\U0001f600\U0001f600\"; ", None)]
+    base_cases = list(lex_cases)
+    for k, (src, exp) in enumerate(base_cases):
+        pre, ptoks = prefixes[k % len(prefixes)]
+        lex_cases.append((pre + src, (ptoks, exp)))
     lres = vlib.run_real(ctx.runner, [vlib.case_line("lex%d" % i, ["SCAN:" + vlib.hx(src)]) for i, (src, _) in enumerate(lex_cases)])
     for (src, exp), r in zip(lex_cases, lres):
         toks = [(t[1], t[3]) for t in (r.get("steps") or [{}])[0].get("tokens", [])]
-        if toks[:-1] != exp or not toks or toks[-1][0] != "Eof":
+        if isinstance(exp, tuple):
+            # prefixed case: the tokens of the prefix (none for a comment; a string and a `;`) come first
+            ptoks, exp = exp
+            skip = 0 if ptoks == [] else 2
+            if skip and [t[0] for t in toks[:2]] != ["Str", "SemiColon"] and [t[0] for t in toks[:2]] != ["String", "SemiColon"]:
+                exp = None
+            toks = toks[skip:]
+        if exp is None or toks[:-1] != exp or not toks or toks[-1][0] != "Eof":
             failures.append({"what": "number lexing of %r gives %s, expected %s" % (src, toks, exp), "source": src, "signature": "number lexing", "failing_input": True})
     # Lean model
     model_checked = 0
